@@ -971,6 +971,8 @@ static void unique_add_to_mapping (mapping_t * m1, mapping_t * m2, int free_flag
 }
 
 void absorb_mapping (mapping_t * m1, mapping_t * m2) {
+  if (m1 == m2)
+    return; /* m += m: nothing to add (copying a node onto itself frees the value before it is copied) */
   if (m2->count)
     add_to_mapping (m1, m2, 0);
 }
